@@ -82,6 +82,24 @@ def cases_for(tok, key, alg, rnd, nmut, dist):
             t[which] = mutate_char(rnd, t[which])
         cases.append((base(t, k2), "F"))
         dist["single-character mutations"] += 1
+    # the PRIVATE form of the key with its public members altered (the verifier must use -- and check -- what the key
+    # says its public part is): one character of x / y / n changed, or the public members of another key
+    if key.get("kty") in ("EC", "RSA") and "d" in key:
+        for m in ("x", "y") if key["kty"] == "EC" else ("n",):
+            k3 = dict(key)
+            k3[m] = mutate_char(rnd, key[m])
+            cases.append((base(tok, k3), "F"))
+            dist["private-form key with altered public members"] += 1
+        if key["kty"] == "EC":
+            import pyec
+            cv = pyec.CURVES.get(key.get("crv"))
+            if cv:
+                d2 = rnd.randrange(1, cv["n"])
+                x2, y2 = pyec.mul(cv, d2, pyec.base(cv))
+                k4 = dict(key, x=G.b64(x2.to_bytes(cv["size"], "big")), y=G.b64(y2.to_bytes(cv["size"], "big")))
+                cases.append((base(tok, k4), "F"))
+                cases.append((base(tok, [k4, k4], "1"), "F"))
+                dist["private-form key with altered public members"] += 2
     # structural mutations
     for mut in ("del-signature", "empty-signature", "int-signature", "del-protected", "obj-protected", "general", "general-empty", "general-mixed",
                 "payload-missing", "payload-int", "protected-alg-none", "sig-arg-object", "sig-arg-array",
